@@ -571,7 +571,7 @@ func vInfixShape(op pAst.InfixOperator) int {
     loop 1 invariant self.scopesWF() && self.aligned() && self.codeLen() >= entry(self.codeLen()) && len(self.varScopes) == entry(len(self.varScopes)) && len(self.loops) == entry(len(self.loops)) && self.tryDepth == entry(self.tryDepth) && self.currFn == entry(self.currFn) && self.currModule == entry(self.currModule) && samemap(self.modules, entry(self.modules)) && self.CurrFn() == entry(self.CurrFn())
     loop 1 invariant forall i in 0..len(self.varScopes) :: samemap(self.varScopes[i], entry(self.varScopes[i]))
     loop 1 invariant forall m map[string]string in allocated :: samecontent(m, entry(m))
-    loop 1 invariant ghost(depth) == entry(ghost(depth)) + (len(node.TriggerArguments.List) - 1 - idx)
+    loop 1 invariant ghost(depth) == entry(ghost(depth)) + (len(node.TriggerArguments.List) - 1 - idx) && idx >= -1
 @*/
 
 // ---------------------------------------------------------------------------
